@@ -561,37 +561,3 @@ pub fn run(ctx: &Ctx) -> (Acc, String, bool) {
     (acc, rule, false)
 }
 
-pub fn replay(payload: &Json) -> String {
-    let parse = |s: &str| -> N {
-        if let Some(f) = s.strip_suffix('f') {
-            N::Float(match f {
-                "NaN" => f64::NAN,
-                "inf" => f64::INFINITY,
-                "-inf" => f64::NEG_INFINITY,
-                o => o.parse().unwrap_or(f64::NAN),
-            })
-        } else {
-            N::Integer(s.parse().unwrap_or(0))
-        }
-    };
-    let a = parse(payload.get("a").and_then(|x| x.as_str()).unwrap_or("0"));
-    let b = parse(payload.get("b").and_then(|x| x.as_str()).unwrap_or("0"));
-    let opn = payload.get("op").and_then(|x| x.as_str()).unwrap_or("");
-    let mut out = String::new();
-    for op in BIN.iter().chain(UN.iter()) {
-        if format!("{:?}", op) == opn {
-            let mut acc = Acc::default();
-            check_direct(*op, a, b, &mut acc);
-            check_instr::<Simple>(*op, a, b, &mut acc);
-            check_instr::<Basic>(*op, a, b, &mut acc);
-            out.push_str(&format!("{:?} {} {}: reference admits {:?}\n", op, nshow(a), nshow(b), reference(*op, a, b)));
-            for v in acc.violations.values() {
-                out.push_str(&format!("  VIOLATED {} :: {}\n", v.sig, v.desc));
-            }
-            if acc.violations.is_empty() {
-                out.push_str("  held\n");
-            }
-        }
-    }
-    out
-}
